@@ -220,13 +220,28 @@ pub fn table_case_from_json(v: &Value) -> Option<TableCase> {
     })
 }
 
+pub fn signal_paths_source(consts: &[usize], tested: usize, with_else: bool) -> String {
+    let mut body = String::new();
+    for (i, c) in consts.iter().enumerate() {
+        let last = i + 1 == consts.len();
+        if i == 0 {
+            body.push_str(&format!("    if (n == 0) {{\n        t <-- {c};\n    }}"));
+        } else if last && with_else {
+            body.push_str(&format!(" else {{\n        t <-- {c};\n    }}"));
+        } else {
+            body.push_str(&format!(" else if (n == {i}) {{\n        t <-- {c};\n    }}"));
+        }
+    }
+    format!("template T(n) {{\n    signal input in;\n    signal output out;\n    signal t;\n{body}\n    var w = 0;\n    if (t == {tested}) {{\n        w = 1;\n    }}\n    out <-- w + t;\n}}\n")
+}
+
 pub fn run(run: &Run) {
     run.set_rule(
         "operator table: for each of the three primes, `var x = A; var y = B; var z = x op y` (20 infix, \
          3 prefix, ternary, boolean connectives over comparisons) for all A, B in a 14-value literal \
          alphabet {0,1,2,3,253,254,255,10^11,p/2,p/2+1,p-2,p-1,2^64,2^(bits-2)}, and the same operators \
          with one operand unknown (parameter in a function / input signal in a template, either side) \
-         and ternaries / prefix operators with unknown parts, and with a negated literal as either operand (5-value sub-alphabet); control flow: every \
+         and ternaries / prefix operators with unknown parts, and with a negated literal as either operand (5-value sub-alphabet); a scalar signal assigned constants from {1,2,3} in every chain of 2-4 branches and then tested; control flow: every \
          skeleton (braced bodies, for) up to the statement bound x every assignment of 7 atoms and 4 \
          conditions, as function and as template, run for n in {0,1,2,p-1}; non-trivial = the program \
          lifts and at least one value claim was compared with a concrete value",
@@ -302,6 +317,34 @@ pub fn run(run: &Run) {
         });
     }
 
+    // Scalar signals (not versioned by SSA) assigned constants on alternative paths: every chain
+    // of 2..4 branches x every assignment of {1,2,3} to the branches x every constant tested.
+    {
+        let (curve, p) = real_primes().into_iter().next().unwrap();
+        let field = Field::new(&p);
+        let mut programs: Vec<(Vec<usize>, usize, bool)> = Vec::new();
+        for k in 2..=4usize {
+            for code in 0..3usize.pow(k as u32) {
+                let consts: Vec<usize> = (0..k).map(|i| code / 3usize.pow(i as u32) % 3 + 1).collect();
+                for tested in 1..=3 {
+                    programs.push((consts.clone(), tested, false));
+                    programs.push((consts.clone(), tested, true));
+                }
+            }
+        }
+        par_each(&programs, |_, (consts, tested, with_else)| {
+            let src = signal_paths_source(consts, *tested, *with_else);
+            let case = json!({"kind": "signal-paths", "curve": curve, "consts": consts, "tested": tested, "else": with_else});
+            run.watch(&case);
+            let audit = audit_source(&src, curve, &field, &case);
+            run.eval(1);
+            if audit.lifted && audit.claims > 0 {
+                run.nontrivial(1);
+            }
+            run.add_extra_count("value_claims_compared", audit.claims);
+            run.violations(audit.violations);
+        });
+    }
     // Route B: the same audit on the CFG the real runner builds from a file (BN254), for a slice
     // of the operator table and the control-flow programs of <= 2 statements.
     {
@@ -373,6 +416,13 @@ pub fn replay(case: &Value) -> Vec<Violation> {
                 Some(tc) => audit_source(&table_source(&tc, &alphabet), &curve, &field, case).violations,
                 None => Vec::new(),
             }
+        }
+        Some("signal-paths") => {
+            let (curve, p) = real_primes().into_iter().next().unwrap();
+            let field = Field::new(&p);
+            let consts: Vec<usize> = case["consts"].as_array().map(|a| a.iter().map(|v| v.as_u64().unwrap_or(1) as usize).collect()).unwrap_or_default();
+            let src = signal_paths_source(&consts, case["tested"].as_u64().unwrap_or(1) as usize, case["else"].as_bool().unwrap_or(false));
+            audit_source(&src, curve, &field, case).violations
         }
         Some("cf") => {
             let max = case["max_stmts"].as_u64().unwrap_or(3) as usize;
